@@ -11,7 +11,7 @@ import ast
 
 from sa.callgraph import CallGraph, Edge
 from sa.cfg import handler_types, implied, suppress_types
-from sa.excflow import ExcFlow
+from sa.aliasderef import AliasDeref, catches_both, enclosing_catch
 from sa.reach import eval3
 from sa.report import Ctx
 from sa.srcmodel import AnalysisError, FunctionInfo, Program, ancestors, dotted, norm, parent, unparse, walk_no_nested
@@ -317,12 +317,12 @@ def run(prog: Program, ctx: Ctx) -> None:  # noqa: PLR0912,PLR0915
     # KeyError conversion of the collection lookup
     for c in calls_in(rs.node):
         if isinstance(c.func, ast.Attribute) and c.func.attr in ("get_member", "__getitem__"):
-            got = _enclosing_catch(c)
+            got = enclosing_catch(c)
             conv = bool(got & {"KeyError", "LookupError", "Exception"})
             ctx.ob("R4", key(rs, "KeyError-converted"), conv, "a missing target (KeyError from the collection) becomes AliasResolutionError", where(rs, c))
     for s in ast.walk(rs.node):
         if isinstance(s, ast.Subscript) and isinstance(s.ctx, ast.Load) and "modules_collection" in unparse(s.value):
-            ctx.ob("R4", key(rs, "KeyError-converted"), bool(_enclosing_catch(s) & {"KeyError", "LookupError", "Exception"}),
+            ctx.ob("R4", key(rs, "KeyError-converted"), bool(enclosing_catch(s) & {"KeyError", "LookupError", "Exception"}),
                    "a missing target (KeyError from the collection) becomes AliasResolutionError", where(rs, s))
     # swallowing proxies
     for name in ("kind", "has_docstring", "has_docstrings"):
@@ -330,28 +330,13 @@ def run(prog: Program, ctx: Ctx) -> None:  # noqa: PLR0912,PLR0915
             sites = [n for n in walk_no_nested(f.node) if isinstance(n, ast.Attribute) and n.attr in ("final_target", "target") and dotted(n.value) == "self"]
             ctx.expect_min("R4", len(sites), 1)
             for n in sites:
-                got = _enclosing_catch(n)
+                got = enclosing_catch(n)
                 ctx.ob("R4", key(f, "swallows-both"), AE <= got or bool(got & CATCH_ALL), f"Alias.{name} never raises on an unresolvable or cyclic alias", where(f, n))
     # dereference sites
-    def skip_parent(_fn, callee, site):
-        recv = site.func.value if isinstance(site, ast.Call) and isinstance(site.func, ast.Attribute) else (site.value if isinstance(site, ast.Attribute) else None)
-        return recv is not None and unparse(recv) in ("self.parent", "self._parent") and callee.cls is alias
-
-    ef = ExcFlow(prog, cg, None, skip_callee=skip_parent)
-    roots = [f for c in prog.mro(alias) for defs in c.methods.values() for f in defs]
-    ef.compute(roots)
-    names: set[str] = set()
-    for c in prog.mro(alias):
-        names |= set(c.methods)
-    raising = set()
-    for n in names:
-        for f in prog.lookup_method(alias, n):
-            if not f.is_setter and set(ef.escapes(f)) & AE:
-                raising.add(n)
-    ctx.analysed["R4_raising_alias_attributes"] = len(raising)
-    ctx.analysed["R4_safe_alias_attributes"] = sorted(names - raising)
-    if len(raising) < 40:
-        raise AnalysisError(f"C06-R4: only {len(raising)} raising Alias proxies computed (expected >= 40): exception-flow summaries broke")
+    ad = AliasDeref(prog, cg)
+    ef = ad.ef
+    ctx.analysed["R4_raising_alias_attributes"] = len(ad.raising)
+    ctx.analysed["R4_safe_alias_attributes"] = sorted(ad.safe)
     TABLED = {
         ("_griffe.loader.GriffeLoader.resolve_module_aliases", "member.final_target"):
             "in the `else:` of the try whose body is member.resolve_target(): the whole chain was just resolved",
@@ -367,41 +352,11 @@ def run(prog: Program, ctx: Ctx) -> None:  # noqa: PLR0912,PLR0915
     }
     scope = [f for f in prog.functions.values() if f.module.name in ("_griffe.loader", "_griffe.merger")
              or f.qualname.startswith("_griffe.mixins.SetMembersMixin.set_member")]
-    n_sites = n_guarded = 0
-    for f in scope:
-        for n in walk_no_nested(f.node):
-            if not (isinstance(n, ast.Attribute) and isinstance(n.ctx, ast.Load) and n.attr in raising):
-                continue
-            recv = n.value
-            rtext = unparse(recv)
-            types = cg.type_of(f, recv)
-            if (types and alias not in types) or rtext == "self":
-                continue
-            n_sites += 1
-            facts = ef._alias_facts(f, n)
-            if (rtext, False) in facts:
-                n_guarded += 1
-                ctx.ob("R4", key(f, f"deref:{norm(n, 60)}"), True, f"dominated by `not {rtext}.is_alias`", where(f, n))
-                continue
-            if _isinstance_narrowed(f, n, rtext):
-                n_guarded += 1
-                ctx.ob("R4", key(f, f"deref:{norm(n, 60)}"), True, "receiver narrowed by isinstance to a non-alias class", where(f, n))
-                continue
-            got = _enclosing_catch(n)
-            if AE <= got or got & CATCH_ALL:
-                n_guarded += 1
-                ctx.ob("R4", key(f, f"deref:{norm(n, 60)}"), True, "inside a handler for both alias errors", where(f, n))
-                continue
-            if _dealiased(f, n, rtext):
-                n_guarded += 1
-                ctx.ob("R4", key(f, f"deref:{norm(n, 60)}"), True,
-                       f"`{rtext}` was replaced by its final target (`if {rtext}.is_alias: {rtext} = {rtext}.final_target` under a handler) on every path", where(f, n))
-                continue
-            reason = TABLED.get((f.qualname, unparse(n)))
-            ctx.ob("R4", key(f, f"deref:{norm(n, 60)}"), reason is not None,
-                   f"tabled: {reason}" if reason else
-                   f"`{unparse(n)}` may dereference an unresolvable/cyclic alias and neither a `not {rtext}.is_alias` test nor a handler for "
-                   "AliasResolutionError and CyclicAliasError covers it: the error would abort loading", where(f, n))
+    sites = ad.scan(scope, TABLED)
+    n_sites = len(sites)
+    for st in sites:
+        ctx.ob("R4", key(st.fn, f"deref:{norm(st.node, 60)}"), st.status != "OPEN",
+               (f"{st.status}: {st.reason}" if st.status != "OPEN" else st.reason + ": the error would abort loading"), where(st.fn, st.node))
     ctx.expect_min("R4", n_sites, 15)
     ctx.analysed["R4_dereference_sites"] = n_sites
     # support for the tabled reasons: callers of resolve_module_aliases / _expand_wildcard
@@ -410,7 +365,7 @@ def run(prog: Program, ctx: Ctx) -> None:  # noqa: PLR0912,PLR0915
         for c in calls_in(f.node):
             tq = {x.qualname for x, _k in cg.callees_of_call(f, c) if isinstance(x, FunctionInfo)}
             if "_griffe.loader.GriffeLoader._expand_wildcard" in tq:
-                got = _enclosing_catch(c)
+                got = enclosing_catch(c)
                 ctx.ob("R4", key(f, "_expand_wildcard-guarded"), AE <= got or bool(got & CATCH_ALL),
                        "collecting wildcard members (may hit an unresolvable alias) happens inside the handler for both alias errors", where(f, c))
             if "_griffe.loader.GriffeLoader.resolve_module_aliases" in tq and c.args:
@@ -427,7 +382,7 @@ def run(prog: Program, ctx: Ctx) -> None:  # noqa: PLR0912,PLR0915
             if isinstance(c.func, ast.Attribute) and c.func.attr == "get_member" and "modules_collection" in unparse(c.func.value) and c.args:
                 n_lookups += 1
                 arg = unparse(c.args[0])
-                got = _enclosing_catch(c)
+                got = enclosing_catch(c)
                 full = ("KeyError" in got or got & {"LookupError", "Exception"}) and (AE <= got or got & CATCH_ALL)
                 tabled = {
                     ("_griffe.loader.GriffeLoader._post_load", "obj_path"): "the user's own objspec: errors are reported to the caller of load()",
@@ -468,52 +423,6 @@ def run(prog: Program, ctx: Ctx) -> None:  # noqa: PLR0912,PLR0915
     memo_test = any(isinstance(n, ast.Compare) and isinstance(n.ops[0], ast.NotIn) and unparse(n.comparators[0]) == "load_failures" for n in ast.walk(rma.node))
     memo_add = any(isinstance(n, ast.Call) and unparse(n.func) == "load_failures.add" for n in ast.walk(rma.node))
     ctx.ob("R5", key(rma, "load-failures-memoised"), memo_test and memo_add, "a package that failed to load is not retried in later iterations", where(rma))
-
-
-def _enclosing_catch(node: ast.AST) -> set[str]:
-    got: set[str] = set()
-    child = node
-    for anc in ancestors(node):
-        if isinstance(anc, ast.Try) and any(child is s for s in anc.body):
-            for h in anc.handlers:
-                for t in handler_types(h) or ["BaseException"]:
-                    got.add(t.split(".")[-1])
-        if isinstance(anc, (ast.With, ast.AsyncWith)) and any(child is s for s in anc.body):
-            for it in anc.items:
-                t = suppress_types(it)
-                if t:
-                    got |= {x.split(".")[-1] for x in t}
-        if isinstance(anc, (ast.FunctionDef, ast.AsyncFunctionDef)):
-            break
-        child = anc
-    return got
-
-
-def _dealiased(fn: FunctionInfo, site: ast.AST, rtext: str) -> bool:
-    """Every path to the site passes `if R.is_alias: R = R.final_target` that sits inside a handler for both alias errors."""
-    cfg = cfg_of(fn)
-    tests = []
-    for n in cfg.live_nodes():
-        if n.kind == "test" and isinstance(n.stmt, ast.If) and n.expr is not None and unparse(n.expr) == f"{rtext}.is_alias":
-            body = n.stmt.body
-            if any(isinstance(b, ast.Assign) and unparse(b.targets[0]) == rtext and unparse(b.value) in (f"{rtext}.final_target",) for b in body):
-                got = _enclosing_catch(n.stmt)
-                if AE <= got or got & CATCH_ALL:
-                    tests.append(n)
-    if not tests:
-        return False
-    nodes = node_index(fn).get(id(site), [])
-    return bool(nodes) and all(cfg.dominated_by_node(x, lambda y: y in tests) for x in nodes)
-
-
-def _isinstance_narrowed(fn: FunctionInfo, site: ast.AST, rtext: str) -> bool:
-    cfg = cfg_of(fn)
-    for n in node_index(fn).get(id(site), []):
-        ok = cfg.dominated_by_fact(n, lambda a, t: t and isinstance(a, ast.Call) and dotted(a.func) == "isinstance" and len(a.args) == 2
-                                   and unparse(a.args[0]) == rtext and "Alias" not in unparse(a.args[1]))
-        if not ok:
-            return False
-    return bool(node_index(fn).get(id(site)))
 
 
 def _edge_guarded(prog: Program, cg: CallGraph, e: Edge, cset: set[str], edges) -> tuple[bool, str]:  # noqa: PLR0911,PLR0912
